@@ -27,7 +27,7 @@ def check(model: Model, run: Run) -> None:
         'ReceiveTimer.check_ka_timer: the holdtime == 0 branch returns before any raise; elapsed = now - last_read; the '
         'raise is guarded by elapsed > holdtime (strict); last_read is refreshed only for real (non-scheduling) messages; '
         'the raise carries the constructor codes',
-        floor=5,
+        floor=3,
     )
     f = model.func(RT + '.check_ka_timer')
     run.analysed(f)
@@ -185,7 +185,7 @@ def check(model: Model, run: Run) -> None:
     )
 
     # ------------------------------------------------------------------ R4 bounded outbound work
-    run.rule('C12.R4', 'outbound work per iteration is bounded: _send_route_updates pulls at most routes_per_iteration messages (a folded constant) from the generator per call', floor=2)
+    run.rule('C12.R4', 'outbound work per iteration is bounded: _send_route_updates pulls at most routes_per_iteration messages (a folded constant) from the generator per call', floor=1)
     sru = model.func(PEER + '._send_route_updates')
     run.analysed(sru)
     fors = [n for n in walk_no_nested(sru.node) if isinstance(n, ast.For) and model.calls_to(sru.module, n, '__anext__')] or [
